@@ -53,7 +53,12 @@ META = {
                    'iteration / foreignKey _eq_model, C04_translated_cacheSet_* (class-name keyed dispatch, per-class factories) hold for '
                    'all worlds under the stated hypotheses; the headline theorems are restated about the translated source '
                    '(C04_translated_identity / _get_returns_live / _deleted_never_returned_partial / _unpickle_no_dup, and the '
-                   'C04_translated_setstate_deleted_row_full_FALSE witness).'),
+                   'C04_translated_setstate_deleted_row_full_FALSE witness). Also translated and proved: the CacheSet methods that loop '
+                   'over all factories (C04_translated_cacheSet_loops_eq_model: weakrefAll = the model function, clear / getAll / '
+                   'allSubCaches* unrolled over the factories in dict order, allIDs(cls) as written), SQLObject.delete, '
+                   'connection.expireAll (C04_translated_connection_expireAll_eq_model), and the CacheSet part of C07\'s assumed interface '
+                   '(C04_translated_cacheSet_allIDs_is_inAllIDs / _tryGetByName_is_connTryGet: AllIDsSpec and Conn.tryGet of '
+                   'Model/Tx.lean hold of the translated methods); sqlmeta.expireAll is translated, no theorem.'),
     'level_note': ('Trusted: Lean kernel; the hand-written model of cache.py/main.py, tied to the code by the op-history '
                    'correspondence (sampling); CPython reference counting / weakref / pickle / SQLite are modelled, not verified.'),
     'rule': ('case = (doCache, cullFrequency, cullFraction, op history); guarded stream (no detaching expire, no unpickle of a deleted row; plus a stream with falsy row objects: '
